@@ -176,7 +176,10 @@ impl<const BIT: bool> Inventories<BIT> {
             let v: i64 = (-(overflow_positions.len() as i64)) - 1;
             block_inventory.push(v);
             overflow_positions.extend(curr_positions.iter());
-            subblock_inventory.extend(std::iter::repeat(u16::MAX).take(curr_positions.len()));
+            // one (unused) entry per sub-block, so that the entries of the next blocks stay aligned
+            subblock_inventory.extend(
+                std::iter::repeat(u16::MAX).take(curr_positions.len().div_ceil(SUBBLOCK_SIZE)),
+            );
         }
     }
 }
